@@ -11,8 +11,13 @@ import threading
 import time
 
 ROOT = os.path.dirname(os.path.dirname(os.path.abspath(__file__)))
-EVID = os.path.join(ROOT, "evidence")
+EVID = os.environ.get("VERIF_EVIDENCE_DIR") or os.path.join(ROOT, "evidence")
 NCPU = int(os.environ.get("VERIF_JOBS", "16"))
+
+
+def _pp():
+    src = os.environ.get("VERIF_REPO_SRC")
+    return (src + os.pathsep + ROOT) if src else ROOT
 
 
 def load_known():
@@ -25,7 +30,7 @@ def load_known():
 
 def native_replay(spec) -> dict:
     env = dict(os.environ)
-    env["PYTHONPATH"] = ROOT
+    env["PYTHONPATH"] = _pp()
     try:
         p = subprocess.run(
             [sys.executable, "-m", "vfw.replay"],
@@ -42,7 +47,7 @@ def native_replay(spec) -> dict:
 class Worker:
     def __init__(self):
         env = dict(os.environ)
-        env["PYTHONPATH"] = ROOT
+        env["PYTHONPATH"] = _pp()
         self.p = subprocess.Popen(
             [sys.executable, "-m", "vfw.worker"], stdin=subprocess.PIPE, stdout=subprocess.PIPE,
             stderr=subprocess.DEVNULL if not os.environ.get("VERIF_DEBUG") else None,
@@ -228,7 +233,7 @@ def check(pid: str, tier: str) -> int:
             "inconclusive_conditions": [c["name"] for c, r in zip(cj, results)
                                         if r["verdict"] in ("CANNOT_CONFIRM", "TIMEOUT") and c["mode"] != "S"][:60],
             "known_findings_reported": [k["what"] for k in known if any(k["what"] in l for l in known_lines)],
-            "repo_head": git_head("/repo"),
+            "repo_head": git_head(os.path.dirname(os.environ.get("VERIF_REPO_SRC") or "/repo/src")),
             "explanation": "bounded symbolic execution of the real jinja2 code (CrossHair/z3); "
                            "'discharged' counts conditions whose whole path tree was exhausted with the "
                            "assertion holding on every path",
